@@ -97,23 +97,38 @@ Inductive op :=
 | OInsert (k : key) (addr : bool) (c : conn)    (* entry(k).insert(KademliaPeer::new(..)) *)
 | OAdd (k : key) (addrs : bool) (c : conn)      (* add_known_peer; addrs = list non-empty *)
 | OConnected (k : key) (dialer : bool)          (* on_connection_established *)
-| ODialFailure (k : key) (addrs : bool).        (* on_dial_failure; addrs = list non-empty *)
+| ODialFailure (k : key) (addrs : bool)         (* on_dial_failure; addrs = list non-empty *)
+| ODisconnected (k : key).                      (* kademlia/mod.rs disconnect_peer: if the entry is
+                                                   Occupied, connection := NotConnected *)
 
 Definition op_key (o : op) : key :=
   match o with
-  | OEntry k | OInsert k _ _ | OAdd k _ _ | OConnected k _ | ODialFailure k _ => k
+  | OEntry k | OInsert k _ _ | OAdd k _ _ | OConnected k _ | ODialFailure k _ | ODisconnected k => k
   end.
 
-(* what the operation does with the slot it obtained *)
-Definition apply_slot (o : op) (b : list node) (s : slot) : list node :=
+(* add_known_peer on an Occupied entry (repaired code, fix F-C14b): hearing of a peer again with
+   NotConnected does not take Connected away; every other combination overwrites *)
+Definition add_conn (old new : conn) : conn :=
+  match old, new with
+  | Connected, NotConnected => Connected
+  | _, _ => new
+  end.
+(* before the repair: entry.connection = connection *)
+Definition add_conn_orig (old new : conn) : conn := new.
+
+(* what the operation does with the slot it obtained; ac = the rule of add_known_peer above *)
+Definition apply_slot_gen (ac : conn -> conn -> conn) (o : op) (b : list node) (s : slot)
+  : list node :=
   match o, s with
   | OInsert k a c, SVac x _ z => x ++ mkNode k a c :: z
   | OAdd k _ c, SVac x _ z => x ++ mkNode k true c :: z
-  | OAdd _ _ c, SOcc x y z => x ++ mkNode (n_key y) true c :: z
+  | OAdd _ _ c, SOcc x y z => x ++ mkNode (n_key y) true (ac (n_conn y) c) :: z
   | OConnected _ dialer, SOcc x y z => x ++ mkNode (n_key y) (n_addr y || dialer) Connected :: z
   | ODialFailure _ ne, SOcc x y z => x ++ mkNode (n_key y) (n_addr y || ne) (n_conn y) :: z
+  | ODisconnected _, SOcc x y z => x ++ mkNode (n_key y) (n_addr y) NotConnected :: z
   | _, _ => slot_bucket b s
   end.
+Definition apply_slot := apply_slot_gen add_conn.
 
 Fixpoint upd_nth {A} (i : nat) (x : A) (l : list A) : list A :=
   match l, i with
@@ -131,7 +146,8 @@ Definition slot_code (s : slot) : nat :=
   match s with SLocal => 0 | SOcc _ _ _ => 1 | SVac _ _ _ => 2 | SNoSlot => 3 end.
 
 (* one table operation: new table, touched bucket index, outcome code *)
-Definition step (local : key) (K : nat) (t : table) (o : op) : table * (option nat * nat) :=
+Definition step_gen (ac : conn -> conn -> conn) (local : key) (K : nat) (t : table) (o : op)
+  : table * (option nat * nat) :=
   match o with
   | OAdd _ false _ => (t, (None, 4))
   | _ =>
@@ -140,9 +156,10 @@ Definition step (local : key) (K : nat) (t : table) (o : op) : table * (option n
       | Some i =>
           let b := nth i t [] in
           let s := bucket_entry K b (op_key o) in
-          (upd_nth i (apply_slot o b s) t, (Some i, slot_code s))
+          (upd_nth i (apply_slot_gen ac o b s) t, (Some i, slot_code s))
       end
   end.
+Definition step := step_gen add_conn.
 
 Fixpoint run (local : key) (K : nat) (t : table) (h : list op) : table :=
   match h with
@@ -228,3 +245,74 @@ Definition all_closest (local : key) (t : table) (tgt : key) : list node :=
 (* RoutingTable::closest *)
 Definition closest (local : key) (t : table) (tgt : key) (k : nat) : list node :=
   firstn k (all_closest local t tgt).
+
+(* ---- the Kademlia glue around the table (kademlia/mod.rs) ----
+
+   State: the routing table and the set of peers Kademlia holds a PeerContext for (`self.peers`:
+   peers with pending actions or an inbound substream — what it takes for "connected").
+   Operations = every code path of mod.rs that writes a table entry:
+   - KAddKnown: KademliaCommand::AddKnownPeer / bootstrap peers;
+   - KEstablished: on_connection_established (pending = there were queued dials for the peer);
+   - KDisconnect: disconnect_peer (connection closed, substream open failure, send/read failure);
+   - KTouch: a PeerContext is created (inbound substream, open_substream_or_dial succeeded);
+   - KUpdate: update_routing_table with the peers of a FIND_NODE/GET_VALUE/GET_PROVIDERS reply
+     (automatic update mode);
+   - KDialFailure: on_dial_failure;  KEntry: the bare routing_table.entry() of PutRecordToPeers. *)
+
+Record kad := mkKad { k_table : table; k_peers : list key }.
+
+Definition in_peers (ps : list key) (p : key) : bool := existsb (key_eqb p) ps.
+Definition believed (ps : list key) (p : key) : conn :=
+  if in_peers ps p then Connected else NotConnected.
+Definition add_peer (ps : list key) (p : key) : list key := if in_peers ps p then ps else p :: ps.
+Definition del_peer (ps : list key) (p : key) : list key :=
+  filter (fun q => negb (key_eqb p q)) ps.
+
+Inductive kop :=
+| KAddKnown (p : key) (addrs : bool)
+| KEstablished (p : key) (dialer pending : bool)
+| KDisconnect (p : key)
+| KTouch (p : key)
+| KUpdate (l : list (key * bool))
+| KDialFailure (p : key) (addrs : bool)
+| KEntry (p : key).
+
+Section Kad.
+Variable ac : conn -> conn -> conn.
+Variable local : key.
+Variable K : nat.
+
+Definition tstep (t : table) (o : op) : table := fst (step_gen ac local K t o).
+
+Definition kadd (s : kad) (pa : key * bool) : kad :=
+  mkKad (tstep (k_table s) (OAdd (fst pa) (snd pa) (believed (k_peers s) (fst pa)))) (k_peers s).
+
+(* update_routing_table: the local peer is filtered out, the rest is added one by one *)
+Definition kupdate (s : kad) (l : list (key * bool)) : kad :=
+  fold_left (fun s' pa => if key_eqb (fst pa) local then s' else kadd s' pa) l s.
+
+Definition kstep_gen (s : kad) (o : kop) : kad :=
+  match o with
+  | KAddKnown p a => kadd s (p, a)
+  | KEstablished p dialer pending =>
+      mkKad (tstep (k_table s) (OConnected p dialer))
+            (if pending then add_peer (k_peers s) p else k_peers s)
+  | KDisconnect p => mkKad (tstep (k_table s) (ODisconnected p)) (del_peer (k_peers s) p)
+  | KTouch p => mkKad (k_table s) (add_peer (k_peers s) p)
+  | KUpdate l => kupdate s l
+  | KDialFailure p a => mkKad (tstep (k_table s) (ODialFailure p a)) (k_peers s)
+  | KEntry p => mkKad (tstep (k_table s) (OEntry p)) (k_peers s)
+  end.
+
+Fixpoint krun_gen (s : kad) (h : list kop) : kad :=
+  match h with [] => s | o :: h' => krun_gen (kstep_gen s o) h' end.
+End Kad.
+
+Definition kstep := kstep_gen add_conn.
+Definition krun := krun_gen add_conn.
+Definition kad_empty (L : nat) : kad := mkKad (empty_table L) [].
+
+(* the FIND_NODE / GET_VALUE / GET_PROVIDERS request arms of on_message_received send
+   closest(hash(target), replication_factor) back verbatim *)
+Definition reply (local : key) (s : kad) (tgt : key) (k : nat) : list node :=
+  closest local (k_table s) tgt k.
